@@ -33,7 +33,7 @@ describe(
         "differences to the learning points and the SciPy model's own epsilon, weights it by the model's nodes; "
         "the surrogate discipline returns exactly the model's predictions and Jacobian for its own input data."
     ),
-    decided=["18.1 kernel/derivative agreement on the use of epsilon", "18.2 surrogate discipline pass-through"],
+    decided=["18.1 kernel/derivative agreement on the use of epsilon", "18.2 surrogate discipline pass-through", "18.5 OpenTURNS gradients transposed"],
     not_decided=["Jacobian = derivative of the prediction for every regressor and transformer pipeline", "interpolation of the learning data", "transformer inverse identities"],
     trusted=["the installed scipy/interpolate/_rbf.py is the code scipy.interpolate.Rbf runs"],
 )
